@@ -127,11 +127,14 @@ def run(tier: str) -> dict:
 
 
 def check(prop: str, tier: str, *, new_bits: int, kf_bit: int | None, beyond_bit: int | None, proof_files: list[str],
-          what: str, kf_prefix: str, kf_requires: int = 0) -> int:
+          what: str, kf_prefix: str, kf_requires: int = 0, extra=None) -> int:
     """new_bits: spec failure bits; kf_bit: failure inside a listed class (kf_requires: extra bit that must also be set for
     the failure to count as inside the class); beyond_bit: rattr's failure goes beyond what the model predicts."""
     T = C.Timer()
     V = C.Verdict(prop)
+    extra_found = extra(tier) if extra else []       # property-specific end-to-end judgements (violations with failing input)
+    for x in extra_found[:3]:
+        V.violation({"property": prop, **x})
     import translate_tables
     translate_tables.write()
     build = C.coq_build(MODEL_FILES + ["gen/Tables.v"] + proof_files)
